@@ -117,6 +117,18 @@ class MerkleNode(dict, metaclass=abc.ABCMeta):
         """
         raise NotImplementedError("Must implement compute_hash method")
 
+    def _remove_parent(self, parent):
+        """Remove one link to `parent` from the known parents of this node.
+
+        The parent is looked up by identity: `list.remove` compares with
+        `==`, which for nodes is structural equality, and would unlink a
+        different parent that merely looks the same."""
+        for i, known_parent in enumerate(self.parents):
+            if known_parent is parent:
+                del self.parents[i]
+                return
+        raise ValueError("%r is not a parent of %r" % (parent, self))
+
     def __setitem__(self, name, new_child):
         """Add a child, invalidating the current hash"""
         self.invalidate_hash()
@@ -129,7 +141,7 @@ class MerkleNode(dict, metaclass=abc.ABCMeta):
         """Remove a child, invalidating the current hash"""
         if name in self:
             self.invalidate_hash()
-            self[name].parents.remove(self)
+            self[name]._remove_parent(self)
             super().__delitem__(name)
         else:
             raise KeyError(name)
@@ -144,7 +156,7 @@ class MerkleNode(dict, metaclass=abc.ABCMeta):
         for name, new_child in new_children.items():
             new_child.parents.append(self)
             if name in self:
-                self[name].parents.remove(self)
+                self[name]._remove_parent(self)
 
         super().update(new_children)
 
